@@ -3,9 +3,11 @@ import bisect
 import collections
 from datetime import datetime, timedelta
 
+import gymnasium
 import numpy as np
 
 from tradingenv.env import TradingEnv
+from tradingenv.features import Feature
 from tradingenv.contracts import ETF
 from tradingenv.spaces import BoxPortfolio
 from tradingenv.transmitter import Transmitter
@@ -29,7 +31,7 @@ RULE = ("Random grids of 2-12 daily/irregular timesteps of which ~85% carry an e
         "expanding. Non-trivial = fold strictly inside the grid with >= 2 valid starts or a refusal.")
 ASSUMPTIONS = ["the episode_length argument of reset() ('number of states') is not judged; the configured length is",
                "sampling_span cases only check membership, not reachability"]
-REQUIRED_CATS = ["decision-refused-then-resubmitted", "timesteps-re-added-after-environment-built", "latent-only-timestep", "events-added-then-rebuilt", "steps_delay:1", "steps_delay:2", "one-off-length-then-configured"]
+REQUIRED_CATS = ["episode-length-with-fit-transformers", "decision-refused-then-resubmitted", "timesteps-re-added-after-environment-built", "latent-only-timestep", "events-added-then-rebuilt", "steps_delay:1", "steps_delay:2", "one-off-length-then-configured"]
 REQUIRED = ["C15:decisions-exact", "C15:start-valid", "C15:visits-contiguous", "C15:every-start-reachable", "C15:refused-when-none-fits",
             "C15:whole-fold", "C15:walk-forward"]
 TECHNIQUE = "runtime monitoring: visited timesteps (observer clock per call) compared with the fold's event-bearing steps; seeded reachability sweep"
@@ -38,6 +40,29 @@ LEVEL_TEXT = ("Exploration. Every episode length from 1 to fold size + 1 is exer
               "of every valid start.")
 LEVEL_NOTE = ("Trusted: numpy's legacy global RNG is uniform. Mutation audit: slice off by one, fold bound '<', the '+1' dropped, "
               "walk-forward step != test size are caught.")
+
+
+class LogF(Feature):
+    """A feature (usable next to library features in a State) that records what the recording observer Rec records
+    for this check: market events with their time, Reset and Done."""
+
+    def __init__(self, sink):
+        self.sink = sink
+        from sklearn.preprocessing import StandardScaler
+        super().__init__(space=gymnasium.spaces.Box(-np.inf, np.inf, (1, 1), float), name="LogF",
+                         transformer=StandardScaler(with_mean=False, with_std=False))
+
+    def process_EventNBBO(self, event):
+        self.sink.log.append(("M", None, event.time))
+
+    def process_EventReset(self, event):
+        self.sink.log.append(("Reset", None, event.time))
+
+    def process_EventDone(self, event):
+        self.sink.log.append(("Done", None, event.time))
+
+    def parse(self):
+        return np.array([[0.0]])
 
 
 def visited_run(env, sink, fold, cap, grid=None, refuse=None):
@@ -118,12 +143,30 @@ def case(ctx, i, tier):
     refusals = 0
     max_valid = 0
     ctx.sample = {"grid": grid, "event_bearing": bearing, "folds": folds, "fold": fold, "sampling_span": span}
+    fitted = rng.random() < 0.25
+    if fitted:
+        ctx.cat("episode-length-with-fit-transformers")
     for nlen in range(1, len(steps) + 2):
         tr = Transmitter(grid, folds)
         tr.add_events(evs)
         sink = ep.Sink()
-        env = TradingEnv(action_space=BoxPortfolio([ETF("A")]), transmitter=tr, state=ep.Rec(sink),
-                         episode_length=nlen, sampling_span=span, steps_delay=delay, latency=L)
+        kwfit = {}
+        st = ep.Rec(sink)
+        if fitted:
+            # feature transformers fitted at construction (a warm-up backtest over the whole fold runs inside the
+            # constructor): the configured episode length is the same afterwards
+            from tradingenv.library import FeaturePrices
+            st = [FeaturePrices([ETF("A")]), LogF(sink)]
+            kwfit = dict(fit_transformers={"fold": fold})
+        try:
+            env = TradingEnv(action_space=BoxPortfolio([ETF("A")]), transmitter=tr, state=st,
+                             episode_length=nlen, sampling_span=span, steps_delay=delay, latency=L, **kwfit)
+        except Exception as ex_:
+            if fitted:
+                # (the warm-up backtest itself can be refused when nothing fits: same verdict as a refused reset)
+                ctx.cat("fit-refused-at-construction")
+                continue
+            raise
         sink.env = env
         if rng.random() < 0.3:
             # the calendar is 'refreshed' after the environment was built: timesteps the transmitter already knows
